@@ -111,9 +111,9 @@ def r13_2(ctx):
                    'within an iteration the update is reached only through the completed write whose count it uses '
                    '(not after an interrupted one)', path=w)
     exits = q.loop_early_exits(fi, loop)
-    ok = bool(exits) and all(q.has_guard(fi, e, q.eq_text('remaining', '0'), True) for e in exits)
-    inf = isinstance(loop.stmt.test, ast.Constant) or \
-        q.norm_guard(fi, loop.stmt.test, True) in (('0 < remaining', True), (q.eq_text('remaining', '0'), False))
+    cond_form = q.norm_guard(fi, loop.stmt.test, True) in (('0 < remaining', True), (q.eq_text('remaining', '0'), False))
+    inf = isinstance(loop.stmt.test, ast.Constant) or cond_form
+    ok = all(q.has_guard(fi, e, q.eq_text('remaining', '0'), True) for e in exits) and (bool(exits) or cond_form)
     ctx.ob('R13.2', 'loop-left-only-when-all-sent', ok and inf, fi, exits[0] if exits else loop,
            'break only under remaining == 0 (loop condition True / remaining > 0)')
     # after a completed write with remaining != 0 the buffer is advanced before the next write
